@@ -10,7 +10,7 @@ Line protocol of streams `C02`, `C08`, `C09` (tile sources and pipelines).
          boxes `z:a,b,c,d` joined by `/` (or `-`), `tiles` = `x,y,z,id` joined by `_` (or `-`).
          A leaf serves its tiles by lookup and the trait's default stream.
 * `pipe` reverse polish, tokens joined by `,`: `L<i>` leaf; `Z<min>:<max>` filter_zoom (`n` =
-         absent, `x` = not a number); `B<w>:<s>:<e>:<n>` filter_bbox (f64 bit patterns; `x` = not
+         absent, `x…` = not a `u8`); `B<w>:<s>:<e>:<n>` filter_bbox (f64 bit patterns; `x` = not
          four numbers); `O<k>` / `M<k>` overlay / merge of the top `k` pipelines; `U` update.
 * `op`   `S` args = boxes joined by `;` → per box the stream sorted by coordinate, joined by `|`
          `G` args = coordinates `x,y,z` joined by `;` → per coordinate the lookup
@@ -65,7 +65,7 @@ def geoLevels (g : Geo.GeoBBox) : Outcome Pyramid :=
 
 def parseZ (s : String) : Option (Option Nat) :=
   if s == "n" then some none
-  else if s == "x" then some (some 999)      -- not a `u8`: rejected like any value ≥ 256
+  else if s.startsWith "x" then some (some 999)   -- `x…`: not a `u8` (word, float, negative, empty): rejected like any value ≥ 256
   else s.toNat?.map some
 
 def takeN : Nat → List Pipe → Option (Pipes × List Pipe)
@@ -94,7 +94,8 @@ def stepTok (st : List Pipe) (tok : String) : Option (List Pipe) :=
   | 'B' =>
     match st with
     | p :: st =>
-      if rest == "x" then some (Pipe.filterBBox .err p :: st)
+      -- `x…`: not four numbers (wrong arity, repeated key, non-numeric entry): rejected
+      if rest.startsWith "x" then some (Pipe.filterBBox .err p :: st)
       else
         match (rest.splitOn ":").mapM BBoxProto.parseF with
         | some [w, s, e, n] => some (Pipe.filterBBox (geoLevels ⟨w, s, e, n⟩) p :: st)
